@@ -12,11 +12,15 @@ import (
 // SimCache is a fault-injecting crl.Cache. It is the only durable state in the
 // simulated system: it survives "validator restart" operations.
 type SimCache struct {
-	mu      sync.Mutex // protects ents map structure only (entries are pre-created where known)
-	ents    map[string]*cacheEnt
-	pre     map[string]*cacheEnt // frozen copy, read-only during a run
-	PanicOn string               // url whose Get panics ("" = none)
-	PanicV  any
+	mu       sync.Mutex // protects ents map structure only (entries are pre-created where known)
+	ents     map[string]*cacheEnt
+	pre      map[string]*cacheEnt // frozen copy, read-only during a run
+	PanicOn  string               // url whose Get panics ("" = none)
+	PanicV   any
+	PanicSet bool // ... the panic is raised by Set instead of Get
+	// Latency is the (fake) duration of every cache operation: a durable
+	// cache does I/O. Operations record their begin and end instants.
+	Latency time.Duration
 }
 
 type cacheEnt struct {
@@ -32,7 +36,9 @@ type cacheEnt struct {
 
 // CacheOp is one recorded cache call.
 type CacheOp struct {
-	T       time.Time
+	T       time.Time // begin
+	TEnd    time.Time
+	Done    bool
 	Op      string // "get" | "set"
 	Outcome string // "hit" | "miss" | "error" | "stored" | "lost"
 	Base    string
@@ -94,11 +100,25 @@ func bundleHashes(b *corecrl.Bundle) (string, string) {
 	return bh, dh
 }
 
+// begin records the start of an operation and waits the cache latency.
+func (c *SimCache) begin(ctx context.Context, e *cacheEnt, op CacheOp) int {
+	e.mu.Lock()
+	e.Ops = append(e.Ops, op)
+	i := len(e.Ops) - 1
+	e.mu.Unlock()
+	if c.Latency > 0 {
+		// a cancelled caller is not kept waiting: the operation then completes at once
+		_ = sleepCtx(ctx, c.Latency)
+	}
+	return i
+}
+
 func (c *SimCache) Get(ctx context.Context, url string) (*corecrl.Bundle, error) {
-	if c.PanicOn != "" && c.PanicOn == url {
+	if c.PanicOn != "" && c.PanicOn == url && !c.PanicSet {
 		panic(c.PanicV)
 	}
 	e := c.ent(url)
+	idx := c.begin(ctx, e, CacheOp{T: time.Now(), Op: "get", Caller: callerOf(ctx)})
 	e.mu.Lock()
 	defer e.mu.Unlock()
 	plan := 0
@@ -110,25 +130,27 @@ func (c *SimCache) Get(ctx context.Context, url string) (*corecrl.Bundle, error)
 		plan = e.GetPlan[e.gets[caller]]
 	}
 	e.gets[caller]++
-	op := CacheOp{T: time.Now(), Op: "get", Caller: caller}
+	op := &e.Ops[idx]
+	op.TEnd, op.Done = time.Now(), true
 	switch {
 	case plan == 1:
 		op.Outcome = "error"
-		e.Ops = append(e.Ops, op)
 		return nil, errCacheFault
 	case plan == 2 || e.bundle == nil:
 		op.Outcome = "miss"
-		e.Ops = append(e.Ops, op)
 		return nil, corecrl.ErrCacheMiss
 	}
 	op.Outcome = "hit"
 	op.Base, op.Delta = bundleHashes(e.bundle)
-	e.Ops = append(e.Ops, op)
 	return e.bundle, nil
 }
 
 func (c *SimCache) Set(ctx context.Context, url string, b *corecrl.Bundle) error {
+	if c.PanicOn != "" && c.PanicOn == url && c.PanicSet {
+		panic(c.PanicV)
+	}
 	e := c.ent(url)
+	idx := c.begin(ctx, e, CacheOp{T: time.Now(), Op: "set", Caller: callerOf(ctx)})
 	e.mu.Lock()
 	defer e.mu.Unlock()
 	plan := 0
@@ -140,22 +162,36 @@ func (c *SimCache) Set(ctx context.Context, url string, b *corecrl.Bundle) error
 		plan = e.SetPlan[e.sets[caller]]
 	}
 	e.sets[caller]++
-	op := CacheOp{T: time.Now(), Op: "set", Caller: caller}
+	op := &e.Ops[idx]
+	op.TEnd, op.Done = time.Now(), true
 	op.Base, op.Delta = bundleHashes(b)
 	switch plan {
 	case 1:
 		op.Outcome = "error"
-		e.Ops = append(e.Ops, op)
 		return errCacheFault
 	case 2:
 		op.Outcome = "lost"
-		e.Ops = append(e.Ops, op)
 		return nil
 	}
 	op.Outcome = "stored"
 	e.bundle = b
-	e.Ops = append(e.Ops, op)
 	return nil
+}
+
+// AllOps returns every recorded operation (sorted by URL for determinism).
+func (c *SimCache) AllOps() []CacheOp {
+	c.mu.Lock()
+	urls := make([]string, 0, len(c.ents))
+	for u := range c.ents {
+		urls = append(urls, u)
+	}
+	c.mu.Unlock()
+	sortStrings(urls)
+	var out []CacheOp
+	for _, u := range urls {
+		out = append(out, c.OpsOf(u)...)
+	}
+	return out
 }
 
 // OpsOf returns the recorded operations of a URL.
